@@ -117,7 +117,7 @@ def run(res, tier, seed, replay):
     import histlib, arenalib
     flavours = [(f"f{i} r0,r1,b0,fk0,fk1,fk2,fk3 " + op + ",C:" + op.split(":")[1], [[op, "C:" + op.split(":")[1]]])
                 for i, op in enumerate(["I:r0:raw:1", "I:r0:clo:2", "I:r0:fake:3", "I:r0:unc:0", "I:b0:bool:1", "I:b0:bool:0", "T:r1:6"])]
-    modes = ["straddle"] * 16 + ["edge"] * 8 + ["low"] * 3 + ["hole_lo", "hole_hi", "neigh"]
+    modes = ["straddle"] * 16 + ["edge"] * 8 + ["low"] * 3 + ["hole_lo", "hole_hi", "neigh"] + ["cet"] * 4 + ["fake31", "fake32", "fake32"]
     if tier == "thorough": modes = modes * 12
     import random as _r
     rr = _r.Random(seed + 101)
